@@ -5,6 +5,6 @@ CONSTANT MaxOps = 4
 CONSTANT MaxSpawn = 4
 CONSTANT FlagUnderMutex = TRUE
 CONSTANT AllowSpurious = TRUE
-INVARIANTS TypeOK NoDeadlockB PoolBounded C08Quiescent QueueConsistent AllDestroyedAtEnd MutexOK
+INVARIANTS TypeOK NoDeadlockB PoolBounded C08Quiescent QueueConsistent AllDestroyedAtEnd MutexOK NoRace
 CONSTRAINT SpawnBound
 CHECK_DEADLOCK FALSE
